@@ -42,7 +42,7 @@ CLAIMED = {
  "C20": dict(cat="proof", design="§4 C20",
    text="A SMALL PART of the property: contract proof (CBMC, full domain: all 256 byte values) that load_typeid returns exactly the in-range type codes unchanged and never returns "
         "normally on an out-of-range byte (exceptions raised only for out-of-range input); bounded stand-in (every byte string up to 6 characters, 8 thorough) that the validation scan of "
-        "load_helper(integer_class&) stays inside the string and lets only strings of the decimal shape reach the integer backend. cereal's reader, size fields, sharing references "
+        "load_helper(integer_class&) stays inside the string and lets only strings of the decimal shape reach the integer backend; contract proof that the Rational and Complex loaders, for ANY two exact numbers delivered by the archive, return a normalised number (zoo/nan for a zero denominator) or throw a library exception, never violating a GMP precondition (checked over the real C05 glue). cereal's reader, size fields, sharing references "
         "(load_rcp_basic), direct make_rcp of non-canonical objects and all post-load operations are NOT under contract.",
    note="Trusted: Archive/std::string stubs, integer backend memory-safe on NUL-terminated strings, extraction rules (template header strip), CBMC.",
    tech="contract-based deductive verification with CBMC on mechanically extracted function text (route F full domain for load_typeid; bounded string length for the load_helper scan)"),
